@@ -18,7 +18,10 @@ def specs(tier):
     from . import templates as t
 
     tpl = [*t.stack_templates(), *t.stack_loop_templates(), *[x for x in t.combinator_templates(3) if "Sequence" not in x.label and "Group" not in x.label], *t.loop_templates()]
-    return [*g.stack_terminals(), *g.backtracking(), *tpl]
+    from . import c09
+
+    # the undo guarantee rests on the snapshotting stack / parser-state contracts: proved here too
+    return [*g.stack_terminals(), *g.backtracking(), *tpl, *[c() for c in c09.SPECS]]
 
 from .groups import concretise_ops
 concretise = concretise_ops(PROPERTY)
